@@ -30,6 +30,11 @@ pub enum FsEvent {
         path: PathBuf,
         outcome: FsOutcome<String>,
     },
+    /// SIGUSR1 was delivered to the reload task at this virtual time (ms):
+    /// what follows belongs to the next load.
+    Mark {
+        at_ms: u64,
+    },
 }
 
 #[derive(Default)]
@@ -63,6 +68,7 @@ impl FsState {
                     .entry(path.clone())
                     .or_default()
                     .push_back(outcome.clone()),
+                FsEvent::Mark { .. } => {}
             }
         }
     }
